@@ -1,6 +1,9 @@
 package sim
 
-import "testing"
+import (
+	"testing"
+	"time"
+)
 
 // shrinkReplay minimises a failing (plan, tape) while the violation keeps the
 // same fingerprint: drop clients, drop script items (delta debugging), switch
@@ -21,8 +24,9 @@ func shrinkReplay(t *testing.T, pd *propDef, rf *ReplayFile, budget int, run run
 	fp := rf.Viol.Fp
 	best := &ReplayFile{Property: rf.Property, Seed: rf.Seed, Plan: rf.Plan.clone(), Tape: append([]uint32(nil), rf.Tape...), Viol: rf.Viol}
 	runs := 0
+	deadline := time.Now().Add(90 * time.Second)
 	try := func(p *Plan, tape []uint32) bool {
-		if runs >= budget {
+		if runs >= budget || time.Now().After(deadline) {
 			return false
 		}
 		runs++
